@@ -153,10 +153,16 @@ def write_ninja(variant):
 
 
 def build(variant, targets):
-    d = write_ninja(variant)
-    cmd = ["ninja", "-C", d, "-j", str(JOBS)] + targets
+    # several checks may be started at once on the same tree: one ninja at a time per build directory
+    import fcntl
+    d0 = variant_dir(variant)
+    os.makedirs(d0, exist_ok=True)
     t0 = time.time()
-    r = subprocess.run(cmd, stdout=subprocess.PIPE, stderr=subprocess.STDOUT, text=True)
+    with open(os.path.join(d0, ".verif-build.lock"), "w") as lk:
+        fcntl.flock(lk, fcntl.LOCK_EX)
+        d = write_ninja(variant)
+        cmd = ["ninja", "-C", d, "-j", str(JOBS)] + targets
+        r = subprocess.run(cmd, stdout=subprocess.PIPE, stderr=subprocess.STDOUT, text=True)
     if r.returncode != 0:
         log(r.stdout[-6000:])
         log("BUILD FAILED (%s %s)" % (variant, " ".join(targets)))
